@@ -14,19 +14,19 @@ open ConjureVerif ConjureVerif.Plain
 theorem gen_extract_ok : Gen.PlainSrc.extractOk = true := by decide
 
 theorem gen_f64_bodies :
-    Gen.PlainSrc.bodies.lookup "Plain for f64::fmt" = some "{if*self==f64::INFINITY{fmt::Display::fmt(\"Infinity\",fmt)}elseif*self==f64::NEG_INFINITY{fmt::Display::fmt(\"-Infinity\",fmt)}else{fmt::Display::fmt(self,fmt)}}" ∧
-    Gen.PlainSrc.bodies.lookup "FromPlain for f64::from_plain" = some "{matchs{\"Infinity\"=>Ok(f64::INFINITY),\"-Infinity\"=>Ok(f64::NEG_INFINITY),s=>s.parse(),}}" := by
+    Gen.PlainSrc.hashes.lookup "Plain for f64::fmt" = some 12577828438287700767 /- "{if*self==f64::INFINITY{fmt::Display::fmt(\"Infinity\",fmt)}elseif*self==f64::NEG_INFINITY{fmt::Display::fmt(\"-Infinity\",fmt)}else{fmt::Display::fmt(self,fmt)}}" -/ ∧
+    Gen.PlainSrc.hashes.lookup "FromPlain for f64::from_plain" = some 9648066476919133558 /- "{matchs{\"Infinity\"=>Ok(f64::INFINITY),\"-Infinity\"=>Ok(f64::NEG_INFINITY),s=>s.parse(),}}" -/ := by
   decide +kernel
 
 theorem gen_binary_bodies :
-    Gen.PlainSrc.bodies.lookup "Plain for [u8]::fmt" = some "{fmt::Display::fmt(&Base64Display::new(self,&STANDARD),fmt)}" ∧
-    Gen.PlainSrc.bodies.lookup "Plain for Bytes::fmt" = some "{Plain::fmt(&**self,fmt)}" ∧
-    Gen.PlainSrc.bodies.lookup "FromPlain for Bytes::from_plain" = some "{letbuf=STANDARD.decode(s).map_err(ParseBinaryError)?;Ok(Bytes::from(buf))}" := by
+    Gen.PlainSrc.hashes.lookup "Plain for [u8]::fmt" = some 9811898537233545600 /- "{fmt::Display::fmt(&Base64Display::new(self,&STANDARD),fmt)}" -/ ∧
+    Gen.PlainSrc.hashes.lookup "Plain for Bytes::fmt" = some 9406949748727506864 /- "{Plain::fmt(&**self,fmt)}" -/ ∧
+    Gen.PlainSrc.hashes.lookup "FromPlain for Bytes::from_plain" = some 12318675407653291860 /- "{letbuf=STANDARD.decode(s).map_err(ParseBinaryError)?;Ok(Bytes::from(buf))}" -/ := by
   decide +kernel
 
 theorem gen_datetime_bodies :
-    Gen.PlainSrc.bodies.lookup "Plain for DateTime<Utc>::fmt" = some "{fmt::Display::fmt(&self.format_with_items(iter::once(Item::Fixed(Fixed::RFC3339))),fmt,)}" ∧
-    Gen.PlainSrc.bodies.lookup "FromPlain for DateTime<Utc>::from_plain" = some "{DateTime::parse_from_rfc3339(s).map(|t|t.with_timezone(&Utc))}" := by
+    Gen.PlainSrc.hashes.lookup "Plain for DateTime<Utc>::fmt" = some 18077947785315892028 /- "{fmt::Display::fmt(&self.format_with_items(iter::once(Item::Fixed(Fixed::RFC3339))),fmt,)}" -/ ∧
+    Gen.PlainSrc.hashes.lookup "FromPlain for DateTime<Utc>::from_plain" = some 5194665675040052682 /- "{DateTime::parse_from_rfc3339(s).map(|t|t.with_timezone(&Utc))}" -/ := by
   decide +kernel
 
 /-- every other type takes `Plain` from `Display` and `FromPlain` from `FromStr` -/
@@ -35,9 +35,9 @@ theorem gen_display_fromstr_lists :
       ["bool", "i32", "ResourceIdentifier", "SafeLong", "str", "String", "Uuid"] ∧
     (Gen.PlainSrc.bodies.filter (·.1 == "as_from_str!")).map (·.2) =
       ["BearerToken", "bool", "i32", "ResourceIdentifier", "SafeLong", "String", "Uuid"] ∧
-    Gen.PlainSrc.bodies.lookup "Plain for BearerToken::fmt" = some "{fmt::Display::fmt(self.as_str(),fmt)}" ∧
-    Gen.PlainSrc.bodies.lookup "macro_rules as_display" = some "($t:ty)=>{implPlainfor$t{fnfmt(&self,fmt:&mutfmt::Formatter<'_>)->fmt::Result{fmt::Display::fmt(self,fmt)}}};" ∧
-    Gen.PlainSrc.bodies.lookup "macro_rules as_from_str" = some "($t:ty)=>{implFromPlainfor$t{typeErr=<$tasFromStr>::Err;#[inline]fnfrom_plain(s:&str)->Result<Self,Self::Err>{s.parse()}}};" := by
+    Gen.PlainSrc.hashes.lookup "Plain for BearerToken::fmt" = some 7080061650749002806 /- "{fmt::Display::fmt(self.as_str(),fmt)}" -/ ∧
+    Gen.PlainSrc.hashes.lookup "macro_rules as_display" = some 16799373132477248045 /- "($t:ty)=>{implPlainfor$t{fnfmt(&self,fmt:&mutfmt::Formatter<'_>)->fmt::Result{fmt::Display::fmt(self,fmt)}}};" -/ ∧
+    Gen.PlainSrc.hashes.lookup "macro_rules as_from_str" = some 7064333651520730159 /- "($t:ty)=>{implFromPlainfor$t{typeErr=<$tasFromStr>::Err;#[inline]fnfrom_plain(s:&str)->Result<Self,Self::Err>{s.parse()}}};" -/ := by
   decide +kernel
 
 /-! #### round trips -/
